@@ -204,3 +204,31 @@ Definition backend_of (n : N) : backend :=
   if n =? 0 then BPassword else if n =? 1 then BFederated else if n =? 2 then BU2F else if n =? 3 then BVIP
   else if n =? 4 then BTOTP else if n =? 5 then BOkta else if n =? 6 then BBootstrap else BOther.
 Definition webui_bad (c : list N * N) : bool := negb (webui_level (map backend_of (fst c)) =? snd c).
+
+(* ---- the login route as issuer of sessions.  A case is a login request - the client certificate of a shape,
+   one of the run's attached auth_cookie states (none; the same / another user's session of some level; expired,
+   foreign, junk, ...), the Authorization: Basic header, the form's credentials (user after the harness's own
+   normalisation, verdict known by construction), the method - and what the real handler answered: did the response
+   set an auth_cookie that verifies under the server's key, its subject and auth_type, else the status written *)
+Record lcase := LG {
+  lg_shape : N;                 (* index into shapes: the certificate part *)
+  lg_cookie : N;                (* index into the list of attached cookie states *)
+  lg_hdr : option basicx;
+  lg_form : option basicx;
+  lg_meth : N;
+  lg_minted : N; lg_sub : N; lg_lvl : N; lg_code : N }.
+Definition lreq (shapes : list shape_t) (cookies : list (option token)) (c : lcase) : loginq :=
+  {| lq_req := {| q_meth := meth_of (lg_meth c); q_origin := NoOrigin; q_tls := fst (get_shape shapes (lg_shape c));
+                  q_cred := {| k_cookie := nth (N.to_nat (lg_cookie c)) cookies None; k_basic := lg_hdr c |} |};
+     lq_form := lg_form c |}.
+Definition login_bad (shapes : list shape_t) (cookies : list (option token)) (now : Z) (c : lcase) : bool :=
+  match login_handler now true (lreq shapes cookies c) with
+  | LMint u l => negb ((lg_minted c =? 1) && (u =? lg_sub c) && (l =? lg_lvl c))
+  | LRefuse code => negb ((lg_minted c =? 0) && (code =? lg_code c))
+  end.
+(* the property's predicate on the OBSERVATION: a session was minted while the conclusion of
+   c06_login_mints_password_only (Model/GateObs.v login_conclusion, Proofs/GateObs.v login_conclusion_iff) is false
+   for the observed subject and level *)
+Definition login_violating (shapes : list shape_t) (cookies : list (option token)) (now : Z) (c : lcase) : bool :=
+  login_bad shapes cookies now c && (lg_minted c =? 1) &&
+  negb (login_conclusion (lreq shapes cookies c) (lg_sub c) (lg_lvl c)).
